@@ -85,7 +85,7 @@ TokFor(m, ty) ==
 \* a unit whose failure fails the directive (an error or panic not absorbed by FallbackWith)
 FailedInst(m, i) ==
   LET u == UnitOf(m.prog, i[1]) IN
-  \/ m.st[i] \in {"err", "panic"} /\ ~(u.kind = "task" /\ u.fb)
+  \/ u.kind # "pred" /\ m.st[i] \in {"err", "panic"} /\ ~(u.kind = "task" /\ u.fb)
   \/ u.kind = "pred" /\ m.st[i] = "panic" /\ ~UnitOf(m.prog, u.task).fb
 FailTok(m, i) == <<IF m.st[i] = "err" THEN "E" ELSE "P", UnitNum(i[1], i[2])>>
 NRun(m) == Cardinality({i \in Insts(m.prog) : m.st[i] = "running"})
@@ -197,7 +197,9 @@ OnRet(m, e) ==
      (IF e.g = m.caller THEN {} ELSE {V(m, e, "HARNESS", "return logged on another goroutine")})
      \cup (IF m.nargs = m.prog.nargsexpr THEN {} ELSE {V(m, e, "C15", "not every argument expression was evaluated exactly once")})
      \cup (CASE e.kind = "nil" ->
-                 (IF okAll THEN {} ELSE {V(m, e, failprop, "nil returned although not every task ran successfully exactly once")})
+                 (IF okAll THEN {} ELSE {V(m, e, failprop, "nil returned although not every task ran successfully exactly once"),
+                                         V(m, e, IF m.prog.dir = "flow" THEN "C02" ELSE "C10",
+                                           "nil returned although not every function was invoked exactly once")})
                  \cup (IF m.prog.dir = "flow" /\ okAll /\ e.toks # ExpectedResults(m)
                        THEN {V(m, e, IF \E t \in Tasks(m.prog) : t.pred # 0 \/ t.fb THEN "C11" ELSE "C02",
                                "Results do not hold the values their providers returned")} ELSE {})
@@ -238,7 +240,7 @@ EmitTok(m, leaf, kind, u) ==
   LET k == CHOOSE k \in DOMAIN m.emits : m.emits[k].leaf = leaf /\ m.emits[k].kind = kind /\ m.emits[k].u = u
   IN <<m.emits[k].errs[1][1], m.emits[k].errs[1][2]>>
 LastOfLeaf(m, leaf) ==
-  LET S == {k \in DOMAIN m.emits : m.emits[k].leaf = leaf} IN
+  LET S == {k \in DOMAIN m.emits : m.emits[k].leaf = leaf /\ m.emits[k].u = 0} IN   \* directive-level events
   IF S = {} THEN "" ELSE m.emits[CHOOSE k \in S : \A j \in S : j <= k].kind
 
 OutcomeKinds == {"TaskSuccess", "TaskError", "TaskErrorRecovered", "TaskPanic", "TaskPanicRecovered"}
